@@ -22,6 +22,7 @@ type Throttler struct {
 
 	idleTimeout time.Duration
 	timer       *time.Timer
+	lastTouch   time.Time // time of the most recent Signal or Release
 }
 
 // New returns a Throttler with the given delay steps, release
@@ -44,8 +45,12 @@ func New(delays []time.Duration, releaseRate int, idleTimeout time.Duration) *Th
 		idleTimeout: idleTimeout,
 	}
 	if idleTimeout > 0 {
-		t.timer = time.AfterFunc(idleTimeout, t.Reset)
+		// Hold the lock so that the callback, should the timer fire before it is
+		// stopped, cannot run until the timer has been stored.
+		t.mu.Lock()
+		t.timer = time.AfterFunc(idleTimeout, t.idleExpired)
 		t.timer.Stop() // don't start until first signal
+		t.mu.Unlock()
 	}
 	return t
 }
@@ -67,8 +72,23 @@ func DefaultThrottler() *Throttler {
 // touch restarts the idle timer. Must be called with t.mu held.
 func (t *Throttler) touch() {
 	if t.timer != nil {
+		t.lastTouch = time.Now()
 		t.timer.Reset(t.idleTimeout)
 	}
+}
+
+// idleExpired is invoked by the idle timer. A timer which has fired cannot be
+// called back, so the callback may run just after a Signal or Release took the
+// lock and restarted the idle period. In that case the Throttler is not idle:
+// leave the level alone and wait for the remainder of the period.
+func (t *Throttler) idleExpired() {
+	t.mu.Lock()
+	defer t.mu.Unlock()
+	if remaining := t.idleTimeout - time.Since(t.lastTouch); remaining > 0 {
+		t.timer.Reset(remaining)
+		return
+	}
+	t.delayFactor = 0
 }
 
 // Signal indicates that the system is under pressure. Each call increments
